@@ -13,6 +13,10 @@ from __future__ import annotations
 import ast
 from pathlib import Path
 
+class Untranslatable(Exception):
+    pass
+
+
 REPO_SRC = Path('/repo/src/gemdat')
 GGEN = Path(__file__).resolve().parents[1] / 'lean' / 'GGen'
 
@@ -82,6 +86,59 @@ def loader_info():
     return info
 
 
+def loader_names_info():
+    """per loader: what is HASHED into the default cache name, what is written into the suffix TEMPLATE, and which parameter's file
+    name CARRIES the template (`Path(x).with_suffix(...)` keeps all but the last suffix of x)"""
+    tree = ast.parse((REPO_SRC / 'trajectory.py').read_text())
+    cls = next(n for n in tree.body if isinstance(n, ast.ClassDef) and n.name == 'Trajectory')
+    info = {}
+    for fn in cls.body:
+        if isinstance(fn, ast.FunctionDef) and fn.name in ('from_vasprun', 'from_lammps', 'from_gromacs'):
+            params = [a.arg for a in fn.args.args + fn.args.kwonlyargs if a.arg not in ('cls', 'cache')]
+            if fn.args.kwarg:
+                params.append('**' + fn.args.kwarg.arg)
+            cache_if = next((n for n in fn.body if isinstance(n, ast.If) and isinstance(n.test, ast.UnaryOp) and isinstance(n.test.operand, ast.Name)
+                             and n.test.operand.id == 'cache'), None)
+            if cache_if is None:
+                raise Untranslatable(f'{fn.name}: `if not cache:` block not found')
+            hashed = set()
+            assigns = {n.targets[0].id: n.value for n in ast.walk(cache_if) if isinstance(n, ast.Assign) and len(n.targets) == 1 and isinstance(n.targets[0], ast.Name)}
+            if 'serialized' in assigns:
+                hashed_expr = assigns['serialized']
+            elif 'hashid' in assigns and isinstance(assigns['hashid'], ast.Call) and len(assigns['hashid'].args) == 1 and not assigns['hashid'].keywords:
+                hashed_expr = assigns['hashid'].args[0]  # `hashid = <helper>(<what is hashed>)`
+            else:
+                raise Untranslatable(f'{fn.name}: neither `serialized = json.dumps(...)` nor `hashid = <helper>(<dict>)` in the `if not cache:` block')
+            local_dicts = {k: v for k, v in assigns.items() if isinstance(v, ast.Dict)}
+
+            def names_in(node, depth=0):
+                for m in ast.walk(node):
+                    if isinstance(m, ast.Name) and isinstance(m.ctx, ast.Load):
+                        if m.id in local_dicts and depth < 3:
+                            names_in(local_dicts[m.id], depth + 1)
+                        elif m.id in params:
+                            hashed.add(m.id)
+                        elif '**' + m.id in params:
+                            hashed.add('**' + m.id)
+            names_in(hashed_expr)
+            templated, carrier = set(), None
+            val = assigns.get('cache')
+            if (isinstance(val, ast.Call) and isinstance(val.func, ast.Attribute) and val.func.attr == 'with_suffix'
+                    and len(val.args) == 1 and isinstance(val.args[0], ast.JoinedStr)):
+                for m in ast.walk(val.args[0]):
+                    if isinstance(m, ast.Name) and m.id in params:
+                        templated.add(m.id)
+                base = val.func.value
+                if isinstance(base, ast.Call) and ast.unparse(base.func) == 'Path' and len(base.args) == 1 and isinstance(base.args[0], ast.Name):
+                    carrier = base.args[0].id
+            if carrier is None:
+                raise Untranslatable(f'{fn.name}: default cache name is not `Path(<file parameter>).with_suffix(f"...")`')
+            info[fn.name] = (sorted(hashed), sorted(templated), carrier)
+    if len(info) != 3:
+        raise Untranslatable(f'loaders found: {sorted(info)}')
+    return info
+
+
 def lean_strs(xs):
     return '[' + ', '.join('"' + x + '"' for x in xs) + ']'
 
@@ -106,10 +163,9 @@ FIELD = {'start site': 'start_site', 'destination site': 'destination_site', 'st
          'atom index': 'atom_index'}
 CMP = {ast.NotEq: '≠', ast.Eq: '=', ast.GtE: '≥', ast.Gt: '>', ast.Lt: '<', ast.LtE: '≤'}
 STATE_VARS = ('fromevent', 'candidate_jump')
+ALIASES: set = set()  # read-only local names introduced inside the loop body (`destination = event['destination site']`)
 
 
-class Untranslatable(Exception):
-    pass
 
 
 def _expr(node, bound):
@@ -123,7 +179,12 @@ def _expr(node, bound):
     if isinstance(node, ast.Name):
         if node.id == 'minimal_residence':
             return 'mr'
+        if node.id in ALIASES:
+            return node.id
         raise Untranslatable(f'name {node.id}')
+    if isinstance(node, ast.BoolOp) and isinstance(node.op, (ast.And, ast.Or)):
+        op = ' ∧ ' if isinstance(node.op, ast.And) else ' ∨ '
+        return '(' + op.join(_expr(v, bound) for v in node.values) + ')'
     if isinstance(node, ast.Constant) and isinstance(node.value, int):
         return f'({node.value})'
     if isinstance(node, ast.UnaryOp) and isinstance(node.op, ast.USub):
@@ -156,6 +217,11 @@ def _stmts(body, ind, bound, lines):
                     lines.append(f'{pad}{tg.id} := some event')
                 else:
                     raise Untranslatable(ast.dump(st)[:80])
+            elif (isinstance(tg, ast.Name) and tg.id not in ('event', 'jumps', 'events', 'minimal_residence') and tg.id.isidentifier()
+                  and tg.id not in ALIASES and not tg.id.endswith('_v')):
+                # a local name for a value read from the rows (assigned once, never reassigned): `let`
+                lines.append(f'{pad}let {tg.id} := {_expr(val, bound)}')
+                ALIASES.add(tg.id)
             elif (isinstance(tg, ast.Subscript) and isinstance(tg.value, ast.Name) and tg.value.id == 'event'
                   and isinstance(tg.slice, ast.Constant)):
                 lines.append(f'{pad}event := {{ event with {FIELD[tg.slice.value]} := {_expr(val, bound)} }}')
@@ -200,6 +266,7 @@ def extract_jump_step():
     if len(loops) != 1:
         raise Untranslatable(f'{len(loops)} iterrows loops found')
     lines = []
+    ALIASES.clear()
     _stmts(loops[0].body, 1, set(), lines)
     head = ('/-! GENERATED by harness/translate.py from src/gemdat/jumps.py (_generic_transitions_to_jumps, the body of the\n'
             '`for _, event in events.iterrows()` loop, statement by statement) — do not edit -/\n'
@@ -278,7 +345,19 @@ def _slice_cache_keys():
     return '\n'.join(lines) + '\n'
 
 
-STRUCTURAL = {'Moves': _slice_moves, 'CacheKeys': _slice_cache_keys, 'JumpStep': extract_jump_step, 'PairGuard': extract_pair_guard}
+def _slice_cache_names():
+    info = loader_names_info()
+    lines = ['/-! GENERATED by harness/translate.py from src/gemdat/trajectory.py (loaders: how the default cache file name is built) — do not edit -/',
+             'namespace G.Gen']
+    for name, (hashed, templated, carrier) in sorted(info.items()):
+        lines.append(f'def {name}_hashed : List String := {lean_strs(hashed)}')
+        lines.append(f'def {name}_templated : List String := {lean_strs(templated)}')
+        lines.append(f'def {name}_carrier : String := "{carrier}"')
+    lines.append('end G.Gen')
+    return '\n'.join(lines) + '\n'
+
+
+STRUCTURAL = {'Moves': _slice_moves, 'CacheKeys': _slice_cache_keys, 'CacheNames': _slice_cache_names, 'JumpStep': extract_jump_step, 'PairGuard': extract_pair_guard}
 
 
 def generate(names=None) -> tuple[bool, str]:
@@ -318,7 +397,7 @@ generate.failed = {}
 # so in a SLICE-NOTE line and searches for a failing input with the enlarged budget.  Slices whose definitions are used inside a property's
 # main proof module (Moves -> C10, CacheKeys -> C16) are not listed: for them an untranslatable source is a broken obligation.
 SLICE_MODULES = {
-    'JumpStep': ['GProofs.C04Gen'], 'PairGuard': ['GProofs.C12Gen'],
+    'JumpStep': ['GProofs.C04Gen'], 'PairGuard': ['GProofs.C12Gen'], 'CacheNames': ['GProofs.C16Names'],
     'FormulasC01': ['GProofs.C01Gen'], 'FormulasC02': ['GProofs.C02Gen'], 'FormulasC05': ['GProofs.C05Gen'], 'FormulasC06': ['GProofs.C06Gen'],
     'FormulasC08': ['GProofs.C08Gen'], 'FormulasC09': ['GProofs.C09Gen'], 'FormulasC10': ['GProofs.C10Gen'], 'FormulasC11': ['GProofs.C11Gen'],
     'FormulasC12': ['GProofs.C12Win'], 'FormulasC14': ['GProofs.C14Gen'], 'FormulasC17': ['GProofs.C17Gen'], 'FormulasC18': ['GProofs.C18Gen'],
